@@ -28,7 +28,7 @@ CORPUS = {
     'P2': ('twins.rs', False), 'P2T': ('twins.rs', False), 'M1B': ('twins.rs', False), 'M2B': ('twins.rs', False),
     'O3': ('twins.rs', False), 'O3A': ('twins.rs', False), 'Q3': ('twins.rs', False),
     'L2': ('literal.rs', True), 'I1': ('literal.rs', True),
-    'P1': ('twins.rs', True), 'P1T': ('twins.rs', True), 'Q1': ('twins.rs', True), 'Q2': ('twins.rs', True),
+    'P1': ('twins.rs', True), 'P1T': ('twins.rs', True), 'Q1': ('twins.rs', True), 'Q2': ('twins.rs', True), 'Q4': ('twins.rs', False),
     'U1': ('utf8.rs', True), 'U2': ('utf8.rs', True), 'E2': ('utf8.rs', True),
 }
 RLIMIT = int(os.environ.get('VLEX_RLIMIT', '100'))
@@ -176,7 +176,7 @@ def prepare(repo, work, codegens):
         for cg, f in futs.items(): clis[cg] = f.result()
     return clis
 
-def run(defs, codegens, repo, work, canaries=(), jobs=14, only=None, canary_defs=None):
+def run(defs, codegens, repo, work, canaries=(), jobs=14, only=None, canary_defs=None, canaries_full_for=()):
     """-> dict(results=[...], prelude_notes, error=None|str).  canaries: fn kinds ('lex_body','root','all')"""
     out = dict(results=[], canary_results=[], prelude_notes=[], error=None)
     try:
@@ -207,7 +207,7 @@ def run(defs, codegens, repo, work, canaries=(), jobs=14, only=None, canary_defs
         keys = []
         for key, fm in r['fns'].items():
             kind = fm.get('kind')
-            if 'all' in canaries or kind in canaries or (kind == 'state' and fm.get('root') and 'root' in canaries):
+            if 'all' in canaries or r['defn'] in canaries_full_for or kind in canaries or (kind == 'state' and fm.get('root') and 'root' in canaries):
                 keys.append(key)
         for key in keys:
             cj.append(j[:9] + (key,))
